@@ -128,10 +128,11 @@ def rule_c(ctx):
     for r in _register_impls(F):
         ctx.fn(r)
         inst_calls = [(bb, t) for bb, t in r.calls() if t.get("f") in [i.id for i in ins]]
-        fb_store = [(bb, t) for bb, t in r.calls() if t.get("f") is not None and
-                    F.inst[t["f"]].name == "signal_hook_registry::half_lock::WriteGuard::<'_, %s>::store" % FB_T]
-        data_store = [(bb, t) for bb, t in r.calls() if t.get("f") is not None and
-                      F.inst[t["f"]].name == "signal_hook_registry::half_lock::WriteGuard::<'_, %s>::store" % DATA_T]
+        from .pub import publish_sites
+        fb_sites = publish_sites(F, r, FB_T)
+        fb_store = [(bb, t) for bb, t, gi, vi in fb_sites]
+        fb_val = {bb: vi for bb, t, gi, vi in fb_sites}
+        data_store = [(bb, t) for bb, t, gi, vi in publish_sites(F, r, DATA_T)]
         if not inst_calls or not data_store:
             raise AnchorLost("registration: installing call / publish call")
         dom = cfg.dominators(r)
@@ -146,7 +147,7 @@ def rule_c(ctx):
                       "(a delivery in that window still finds it)", it["sp"], late)
             sig = [deep_strip(e) for e in flow(r).term_arg(ibb, 0)]
             for fbb, ft in fb_store:
-                vd = deps(r, flow(r).term_arg(fbb, 1))
+                vd = deps(r, flow(r).term_arg(fbb, fb_val.get(fbb, 1)))
                 det = [x for x in vd if x[0] == "call" and (r.term(x[1]).get("def") or "").endswith("Prev::detect")]
                 same = False
                 for x in det:
@@ -215,59 +216,25 @@ def rule_e(ctx):
         bb, t = inst_calls[0]
         old = [deep_strip(e) for e in fl.term_arg(bb, 2)]
         isnull = all((e[0] == "call" and (e[3] or "").startswith("core::ptr::null")) or fold(e) == 0 for e in old)
-        oloc = None
-        for e in old:
-            x = e
-            while x[0] in ("ref", "cast"):
-                x = deep_strip(x[1])
-            if x[0] in ("partial",):
-                oloc = x[1]
-            elif x[0] == "call" and (x[3] or "").endswith("mem::zeroed"):
-                # `&mut old` where old = zeroed(): find the local
-                for l, ty in enumerate(ins.body["locals"]):
-                    pass
-        # the local whose address is passed: take it from the raw operand
-        a2 = t["args"][2]
-        oldlocal = None
-        if a2["k"] in ("copy", "move") and not a2["p"]["p"]:
-            # _21 = &raw (*_22); _22 = &mut _14
-            cur = a2["p"]["l"]
-            for _ in range(6):
-                nxt = None
-                for bl in ins.blocks:
-                    for st in bl["s"]:
-                        if st["k"] == "assign" and not st["l"]["p"] and st["l"]["l"] == cur and st["r"]["k"] in ("ref", "rawptr"):
-                            pl = st["r"]["p"]
-                            nxt = (pl["l"], [p["k"] for p in pl["p"]])
-                if nxt is None:
-                    break
-                if nxt[1] == []:
-                    oldlocal = nxt[0]; break
-                cur = nxt[0]
-        ctx.check(not isnull and oldlocal is not None, rid, "install-returns-old@%s" % keyname(ins.name), "the installing sigaction call receives a non-null `oldact` out parameter", t["sp"],
+        # the storage whose address is passed: identified by the call that created it (mem::zeroed / MaybeUninit::zeroed / uninit)
+        def storage_atoms(exprs):
+            return {x for x in deps(ins, exprs) if x[0] == "call" and re.search(r"(mem::zeroed|MaybeUninit::<T>::(zeroed|uninit))$", ins.term(x[1]).get("def") or "")}
+        oa = storage_atoms(fl.term_arg(bb, 2))
+        ctx.check(not isnull and bool(oa), rid, "install-returns-old@%s" % keyname(ins.name), "the installing sigaction call receives a non-null `oldact` out parameter", t["sp"],
                   [show(e) for e in old])
-        if oldlocal is None:
+        if not oa:
             continue
-        # the Prev stored in the Slot takes its `info` from that local
         okk = False; found = []
         for abb, bl in enumerate(ins.blocks):
             for si, st in enumerate(bl["s"]):
                 if st["k"] == "assign" and st["r"]["k"] == "aggregate" and st["r"].get("def") == "signal_hook_registry::Prev":
                     fi = st["r"]["fields"].index("info")
-                    op = st["r"]["ops"][fi]
-                    src = op["p"]["l"] if op["k"] in ("copy", "move") else None
-                    # follow plain copies
-                    for _ in range(4):
-                        for bl2 in ins.blocks:
-                            for st2 in bl2["s"]:
-                                if st2["k"] == "assign" and not st2["l"]["p"] and st2["l"]["l"] == src and st2["r"]["k"] == "use" and st2["r"]["o"].get("p") and not st2["r"]["o"]["p"]["p"]:
-                                    src = st2["r"]["o"]["p"]["l"]
-                    found.append(src)
-                    if src == oldlocal and abb in cfg.reachable_after(ins, bb, unwind=False):
+                    pa = storage_atoms(fl.operand(st["r"]["ops"][fi], (abb, si)))
+                    found.append(sorted(pa))
+                    if pa & oa and abb in cfg.reachable_after(ins, bb, unwind=False):
                         okk = True
-        slot_prev_ok = okk
-        ctx.check(slot_prev_ok, rid, "slot-prev-is-exchanged@%s" % keyname(ins.name), "Slot.prev.info is the structure the installing call filled in", ins.span,
-                  {"prev_info_from_local": found, "oldact_local": oldlocal, "why": "a handler installed by another thread between a separate query and the install would never be chained"})
+        ctx.check(okk, rid, "slot-prev-is-exchanged@%s" % keyname(ins.name), "Slot.prev.info is the structure the installing call filled in", ins.span,
+                  {"prev_info_storage": found, "oldact_storage": sorted(oa), "why": "a handler installed by another thread between a separate query and the install would never be chained"})
 
 
 def run(ctx):
